@@ -637,7 +637,7 @@ fn c08(ctx: &mut Ctx) {
         ctx.rep.case(&format!("hyrax commit p,q,p+q nv={} kind={}", nv, kp), Some(format!("hyrax-model/c08/{}/{}", nv, kp)));
     }
     // refusals of commit: odd number of variables, key too short / too long
-    for (t, (nv, klen)) in [(3usize, 2usize), (4, 2), (2, 1), (4, 8), (1, 1)].iter().enumerate() {
+    for (t, (nv, klen)) in [(3usize, 2usize), (4, 2), (2, 1), (4, 8), (1, 1), (8, 8)].iter().enumerate() {
         let id = format!("C08/hyrax-model/refuse/{}", t);
         if !ctx.selected(&id) {
             continue;
